@@ -502,3 +502,77 @@ func emptiedGroupsAreDropped(r *an.Run, rule string) {
 	r.Count("clean-up steps that shorten comment lists", n)
 	r.Min("clean-up steps that shorten comment lists", 1)
 }
+
+// slotIsTheRecordedSlot (C05-R10, C04-R14): what a match is replaced through
+// is the very slot it was found in — the field (and element) of the parent
+// that the search recorded for it. A slot resolved against anything else (a
+// node that replaced the parent, an index re-used in a list that was
+// rebuilt) overwrites code the match never covered: an element the "..." of
+// an enclosing match had carried over, or a neighbour.
+func slotIsTheRecordedSlot(r *an.Run, rule string) {
+	r.Rule(rule)
+	site := findSlotSite(r)
+	if site == nil {
+		r.Undecided("slot-site", 0, "cannot find where FileReplacer.Replace assigns the recorded slots")
+		return
+	}
+	// a field of the current match, by the type of the field (the parent node, the field name, the index)
+	matchField := func(v ssa.Value, typ string) bool {
+		u, ok := an.Unwrap(v).(*ssa.UnOp)
+		if !ok {
+			return false
+		}
+		fa, ok := u.X.(*ssa.FieldAddr)
+		if !ok || !site.isMatch(fa.X) {
+			return false
+		}
+		return an.ShortType(u.Type()) == typ
+	}
+	var recorded func(v ssa.Value, depth int) string
+	recorded = func(v ssa.Value, depth int) string {
+		if depth > 8 {
+			return "too deep"
+		}
+		switch x := v.(type) {
+		case *ssa.Phi:
+			for _, e := range x.Edges {
+				if e == v {
+					continue
+				}
+				if why := recorded(e, depth+1); why != "" {
+					return why
+				}
+			}
+			return ""
+		case *ssa.Call:
+			switch {
+			case an.IsCallTo(x, rvIndex):
+				if !matchField(x.Call.Args[1], "int") {
+					return "the element index is not the recorded index of the match (" + an.Describe(x.Call.Args[1]) + ")"
+				}
+				return recorded(x.Call.Args[0], depth+1)
+			case an.IsCallTo(x, "(reflect.Value).FieldByName"):
+				if !matchField(x.Call.Args[1], "string") {
+					return "the field name is not the recorded field of the match (" + an.Describe(x.Call.Args[1]) + ")"
+				}
+				return recorded(x.Call.Args[0], depth+1)
+			case an.IsCallTo(x, "reflect.Indirect", "(reflect.Value).Elem"):
+				return recorded(x.Call.Args[0], depth+1)
+			case an.IsCallTo(x, "reflect.ValueOf"):
+				if !matchField(x.Call.Args[0], "ast.Node") {
+					return "the node whose field is written is not the recorded parent of the match (" + an.Describe(an.Unwrap(x.Call.Args[0])) + ")"
+				}
+				return ""
+			}
+		}
+		return "the slot is computed by " + an.Describe(v)
+	}
+	n := 0
+	for _, c := range site.calls(rvSet) {
+		n++
+		why := recorded(an.CallArgs(c)[0], 0)
+		r.Check(why == "", short(site.fn)+"|assigns-the-recorded-slot", c.Pos(), "the replacement of a match is written into the slot the search recorded for it: parent.<name>[index] of that very match %s", why)
+	}
+	r.Count("slot assignments", n)
+	r.Min("slot assignments", 1)
+}
